@@ -1,23 +1,4 @@
-import OpyVerif.Proofs.TaskRun
-import OpyVerif.Proofs.ClipProg
-import OpyVerif.Generated.Skeletons.skel_ABC_good
-import OpyVerif.Generated.Skeletons.skel_AIWPSO_good
-import OpyVerif.Generated.Skeletons.skel_BA_good
-import OpyVerif.Generated.Skeletons.skel_BHA_good
-import OpyVerif.Generated.Skeletons.skel_CS_good
-import OpyVerif.Generated.Skeletons.skel_FA_good
-import OpyVerif.Generated.Skeletons.skel_FPA_good
-import OpyVerif.Generated.Skeletons.skel_GSA_good
-import OpyVerif.Generated.Skeletons.skel_HC_good
-import OpyVerif.Generated.Skeletons.skel_HS_good
-import OpyVerif.Generated.Skeletons.skel_IHS_good
-import OpyVerif.Generated.Skeletons.skel_PSO_good
-import OpyVerif.Generated.Skeletons.skel_RPSO_good
-import OpyVerif.Generated.Skeletons.skel_SA_good
-import OpyVerif.Generated.Skeletons.skel_SCA_good
-import OpyVerif.Generated.Skeletons.skel_WCA_good
-import OpyVerif.Generated.ClipLoops.searchClip_eq
-import OpyVerif.Generated.ClipLoops.hyperClip_eq
+import OpyVerif.Proofs.TaskRunCodeBox
 import OpyVerif.Generated.Sweeps.genericSweep_eq
 import OpyVerif.Generated.Sweeps.psoSweep_eq
 /-!
@@ -29,30 +10,6 @@ arithmetic of the updates and about the user's hook.
 -/
 namespace Opy
 open Task
-
-/-- the `run()` skeletons of the sixteen population optimisers, as translated -/
-def Gen.taskSkeletons : List Skeleton := [Gen.skel_ABC, Gen.skel_AIWPSO, Gen.skel_BA, Gen.skel_BHA, Gen.skel_CS, Gen.skel_FA, Gen.skel_FPA, Gen.skel_GSA, Gen.skel_HC, Gen.skel_HS, Gen.skel_IHS, Gen.skel_PSO, Gen.skel_RPSO, Gen.skel_SA, Gen.skel_SCA, Gen.skel_WCA]
-
-theorem code_taskSkeletons_good : ∀ sk ∈ Gen.taskSkeletons, Good true sk = true := by
-  intro sk h
-  simp only [Gen.taskSkeletons, List.mem_cons, List.not_mem_nil, or_false] at h
-  rcases h with rfl | rfl | rfl | rfl | rfl | rfl | rfl | rfl | rfl | rfl | rfl | rfl | rfl | rfl | rfl | rfl
-  · exact Gen.skel_ABC_good
-  · exact Gen.skel_AIWPSO_good
-  · exact Gen.skel_BA_good
-  · exact Gen.skel_BHA_good
-  · exact Gen.skel_CS_good
-  · exact Gen.skel_FA_good
-  · exact Gen.skel_FPA_good
-  · exact Gen.skel_GSA_good
-  · exact Gen.skel_HC_good
-  · exact Gen.skel_HS_good
-  · exact Gen.skel_IHS_good
-  · exact Gen.skel_PSO_good
-  · exact Gen.skel_RPSO_good
-  · exact Gen.skel_SA_good
-  · exact Gen.skel_SCA_good
-  · exact Gen.skel_WCA_good
 
 /-- the two sweeps of these optimisers, as translated -/
 def Gen.taskSweeps : List SweepLoop := [Gen.genericSweep, Gen.psoSweep]
@@ -81,71 +38,11 @@ theorem code_taskSweeps_isRule : ∀ sw ∈ Gen.taskSweeps, ∃ swarm, IsRule sw
   · exact ⟨false, code_genericSweep_isRule⟩
   · exact ⟨true, code_psoSweep_isRule⟩
 
-/-- `SearchSpace.check_limits`, as translated, projects every position of the declared row count into the declared box -/
-theorem code_searchClip_clipsInto (lbs ubs : List Int) (hb : BoundsOk lbs ubs) : ClipsInto Gen.searchClip lbs ubs lbs ubs := by
-  intro pos hl
-  rw [Gen.searchClip_eq]
-  have h : Expected.searchClip.runPos lbs ubs pos = clipPos lbs ubs pos := agentClip_run lbs ubs pos
-  rw [h]
-  exact clipPos_inBox lbs ubs pos hb hl.symm
-
-/-- `HyperSpace.check_limits`, as translated, projects into the unit box whatever the declared bounds are -/
-theorem code_hyperClip_clipsInto (lbs ubs : List Int) (hl : lbs.length = ubs.length) :
-    ClipsInto Gen.hyperClip lbs ubs (List.replicate lbs.length keyZero) (List.replicate lbs.length keyOne) := by
-  intro pos hp
-  rw [Gen.hyperClip_eq]
-  have h := hyperClip_run lbs ubs [pos]
-  simp only [ClipLoop.runAll, clipAllHyper, List.map_cons, List.map_nil, List.cons.injEq, and_true] at h
-  rw [h]
-  have h1 : min lbs.length ubs.length = pos.length := by omega
-  rw [h1, ← hp]
-  exact clipHyper_inUnitBox pos
-
-/-! ### the task theorems about the translated programs -/
 
 section
 variable (sk : Skeleton) (hsk : sk ∈ Gen.taskSkeletons) (sw : SweepLoop) (hsw : sw ∈ Gen.taskSweeps)
-include hsk
-
-/-- **C01 (search spaces).**  Every position a sweep of any of the sixteen optimisers hands to the objective lies in the
-    declared box: for every box with `lb ≤ ub`, objective, update arithmetic, feasible-keeping hook and iteration count. -/
-theorem code_task_evals_inBox (lbs ubs : List Int) (hb : BoundsOk lbs ubs) (o : TaskOracle)
-    (ho : OracleOK lbs.length lbs ubs o) (pop : List Ag) (best : Ag) (h0 : ∀ a ∈ pop, InBox lbs ubs a.pos) (N : Nat) :
-    ∀ e ∈ (TaskProg.runTask ⟨sk, Gen.searchClip, sw⟩ lbs ubs o (TaskSt.start pop best) N).evals, InBox lbs ubs e.1 :=
-  task_evals_inBox ⟨sk, Gen.searchClip, sw⟩ lbs ubs o (code_taskSkeletons_good sk hsk) lbs ubs
-    (code_searchClip_clipsInto lbs ubs hb) ho pop best h0 N
-
-/-- **C01 / C13 (hypercomplex spaces).**  … lies in the unit box, whatever bounds were declared. -/
-theorem code_task_evals_inUnitBox (lbs ubs : List Int) (hl : lbs.length = ubs.length) (o : TaskOracle)
-    (ho : OracleOK lbs.length (List.replicate lbs.length keyZero) (List.replicate lbs.length keyOne) o)
-    (pop : List Ag) (best : Ag)
-    (h0 : ∀ a ∈ pop, InBox (List.replicate lbs.length keyZero) (List.replicate lbs.length keyOne) a.pos) (N : Nat) :
-    ∀ e ∈ (TaskProg.runTask ⟨sk, Gen.hyperClip, sw⟩ lbs ubs o (TaskSt.start pop best) N).evals,
-      InBox (List.replicate lbs.length keyZero) (List.replicate lbs.length keyOne) e.1 :=
-  task_evals_inBox ⟨sk, Gen.hyperClip, sw⟩ lbs ubs o (code_taskSkeletons_good sk hsk) _ _
-    (code_hyperClip_clipsInto lbs ubs hl) ho pop best h0 N
-
-/-- **C03.**  `N + 1` hook calls, each followed by a sweep over exactly the positions it left behind, in order; `N` records;
-    the sweeps' objective calls are exactly those arguments. -/
-theorem code_task_logs (c : ClipLoop) (lbs ubs : List Int) (o : TaskOracle) (pop : List Ag) (best : Ag) (N : Nat) :
-    let s := TaskProg.runTask ⟨sk, c, sw⟩ lbs ubs o (TaskSt.start pop best) N
-    LogInv o s ∧ s.hookOut.length = N + 1 ∧ s.sweepArgs.length = N + 1 ∧ s.dumps.length = N :=
-  task_logs ⟨sk, c, sw⟩ lbs ubs o (code_taskSkeletons_good sk hsk) pop best N
-
-theorem code_task_sweep_calls (c : ClipLoop) (lbs ubs : List Int) (o : TaskOracle) (pop : List Ag) (best : Ag) (N n : Nat)
-    (hn : ∀ k st, (o.hook k st).1.length = n) :
-    (TaskProg.runTask ⟨sk, c, sw⟩ lbs ubs o (TaskSt.start pop best) N).evals.length = (N + 1) * n :=
-  task_sweep_calls ⟨sk, c, sw⟩ lbs ubs o (code_taskSkeletons_good sk hsk) pop best N n hn
-
-/-- **C04.**  The last record is the population and the best agent as the task leaves them. -/
-theorem code_task_last_dump (c : ClipLoop) (lbs ubs : List Int) (o : TaskOracle) (s0 : TaskSt) (N : Nat) :
-    let s := TaskProg.runTask ⟨sk, c, sw⟩ lbs ubs o s0 (N + 1)
-    s.dumps.getLast? = some (s.pop.map record, record s.best) :=
-  task_last_dump ⟨sk, c, sw⟩ lbs ubs o (code_taskSkeletons_good sk hsk) s0 N
-
 include hsw
 
-omit hsk in
 /-- **C02.**  The best agent's fitness bounds every value a sweep obtained and every recorded best fitness from below, and
     the recorded best fitnesses never increase (optimisers whose updates leave the best agent alone). -/
 theorem code_task_best (c : ClipLoop) (lbs ubs : List Int) (o : TaskOracle) (hk : BestKept o) (pop : List Ag) (best : Ag) (N : Nat) :
